@@ -40,7 +40,7 @@ LEVEL_NOTE = "Trusted: vlib/model.py serializer (documented rules), value constr
 
 @st.composite
 def strategy_(draw, tier):
-    cfg = {"max_depth": 3 if tier == "quick" else 4, "generics": True, "std": True, "methods": True, "lit_in_union": False, "unsup": False}
+    cfg = {"max_depth": 3 if tier == "quick" else 4, "generics": True, "field_conv": True, "std": True, "methods": True, "lit_in_union": False, "unsup": False}
     prog = draw(gen.programs(cfg))
     opts = {
         "aliaser": pick(draw, ["id", "id", "camel", "pfx"]),
